@@ -108,6 +108,19 @@ CHECKS.update({
   design="DESIGN.md 3.5, 5 (C10)"),
 })
 
+CHECKS.update({
+ "C08": dict(engine="Grammar",
+  technique="TLA+/TLC: operational model of the lazy evaluation engine (Lazy.tla: termination under weak fairness, no escaping exception, balanced evaluation state, settled values stable, eager = denotational value) whose counterexamples and predictions are replayed on the real assembler; grammar G as a TLA+ derivation machine (Grammar.tla: every program up to k expansions by BFS, programs up to 60 statements by simulation, planted faults, <= 3 token/character mutations) run under the collect/bare/graphical report handlers with a CPU-time watchdog; every run validated as a trace by the outcome automaton Outcome.tla",
+  text="Model checking of the engine design for <= 3 symbols / <= 3 statements (config A, acyclic: all properties hold; config B, all graphs: the counterexamples are the open cyclic-definition finding and are reproduced on the real code) and bounded-exhaustive plus simulated conformance: about 30k texts (quick) / 1.3M texts (thorough) from grammar G, each run ending in 'ok and no error issued' or 'reported failure with at least one error' as accepted by Outcome.tla.",
+  note="Trusted: TLC, the renderer harness/grammar.py, the bounds guard (repeat/align/shift counts are small literals; texts outside are dropped and counted), hang = 0.6-1 CPU-s confirmed with 5 CPU-s in a fresh process; known-finding matching uses pdpy11's parser only to build the definition graph. Cyclic definitions are an open known finding.",
+  design="DESIGN.md 3.3, 3.9, 4, 5 (C08), 10.7"),
+ "C18": dict(engine="History",
+  technique="TLA+/TLC: History.tla composes assemblies of eight kinds sequentially (every exit path restores try_compute depth, awaiting stack and handler stack), Lazy.tla Balanced under injected exceptions; every enumerated history (all <= 4-5, simulated of 50) is played in one process on the real assembler followed by five probe programs whose results must equal a fresh process; the same probes through the CLI under PYTHONHASHSEED 0..N",
+  text="Model checking of state restoration on every exit path and bounded-exhaustive conformance on probe results (outcome, base, bytes, diagnostics by severity/identifier/position, emitted files, listing): about 900 histories / 6k assemblies in quick, 17.6k histories / 196k assemblies in thorough.",
+  note="Trusted: TLC; concrete programs per kind come from pools in harness/history.py; counter readings are diagnostic only; diagnostic texts are compared only across hash seeds. Kinds 'cycle' and 'interrupted' rely on inputs that hang today (open known finding).",
+  design="DESIGN.md 3.3, 5 (C18), 10.7"),
+})
+
 NOT_YET = {}
 
 
